@@ -1,22 +1,22 @@
 #!/bin/sh
 # usage: confirm_mutant2.sh <id>   (round-2 layout: /tmp/mut-<id>/OUT/meta.json has demo_command)
 ID=$1
-WT=/tmp/mut-$ID
+WT=/root/mut/mut-$ID
 cd $WT || exit 2
 CMD=$(python3 -c "import json;print(json.load(open('OUT/meta.json'))['demo_command'])")
-cp OUT/patch.diff /tmp/confirm-$ID.patch
+cp OUT/patch.diff /root/mut/confirm-$ID.patch
 git checkout -q -- crates 2>/dev/null
 # demonstration files the agent may have placed under crates/ are re-created from OUT by its command or kept as untracked
-git apply --check /tmp/confirm-$ID.patch || { echo "RESULT $ID: patch does not apply at HEAD"; exit 1; }
+git apply --check /root/mut/confirm-$ID.patch || { echo "RESULT $ID: patch does not apply at HEAD"; exit 1; }
 cargo build --offline -q 2>/dev/null || { echo "RESULT $ID: clean build failed"; exit 1; }
-( sh -c "$CMD" ) > /tmp/confirm-$ID.without.log 2>&1; RC_WITHOUT=$?
-git apply /tmp/confirm-$ID.patch
+( sh -c "$CMD" ) > /root/mut/confirm-$ID.without.log 2>&1; RC_WITHOUT=$?
+git apply /root/mut/confirm-$ID.patch
 cargo build --offline -q 2>/dev/null || { echo "RESULT $ID: build with change failed"; exit 1; }
-( sh -c "$CMD" ) > /tmp/confirm-$ID.with.log 2>&1; RC_WITH=$?
+( sh -c "$CMD" ) > /root/mut/confirm-$ID.with.log 2>&1; RC_WITH=$?
 # the 90 existing tests, with the change, without any demonstration test files
 UNTRACKED=$(git ls-files --others --exclude-standard crates | tr '\n' ' ')
-mkdir -p /tmp/confirm-$ID.stash; for f in $UNTRACKED; do mkdir -p /tmp/confirm-$ID.stash/$(dirname $f); mv $f /tmp/confirm-$ID.stash/$f; done
+mkdir -p /root/mut/confirm-$ID.stash; for f in $UNTRACKED; do mkdir -p /root/mut/confirm-$ID.stash/$(dirname $f); mv $f /root/mut/confirm-$ID.stash/$f; done
 TESTS=$(cargo nextest run --workspace --offline 2>&1 | grep -E "Summary" | tail -1)
-for f in $UNTRACKED; do mv /tmp/confirm-$ID.stash/$f $f; done; rm -rf /tmp/confirm-$ID.stash
+for f in $UNTRACKED; do mv /root/mut/confirm-$ID.stash/$f $f; done; rm -rf /root/mut/confirm-$ID.stash
 git checkout -q -- crates
 echo "RESULT $ID: cmd[$CMD] tests[$TESTS] demo_without_rc=$RC_WITHOUT demo_with_rc=$RC_WITH"
